@@ -77,6 +77,21 @@ class ACCDirective(metaclass=abc.ABCMeta):
     '''
     _PREFIX = "ACC"
 
+    def _validate_not_in_compute_construct(self):
+        '''
+        OpenACC compute constructs (parallel, kernels) and data directives
+        must not appear within a compute construct.
+
+        :raises GenerationError: if this directive is within an OpenACC \
+            parallel or kernels region.
+        '''
+        enclosing = self.ancestor((ACCParallelDirective, ACCKernelsDirective))
+        if enclosing:
+            raise GenerationError(
+                f"{type(self).__name__} must not be within an OpenACC "
+                f"compute construct but found an enclosing "
+                f"{type(enclosing).__name__}.")
+
 
 class ACCRegionDirective(ACCDirective, RegionDirective, metaclass=abc.ABCMeta):
     ''' Base class for all OpenACC region directive statements.
@@ -190,6 +205,17 @@ class ACCEnterDataDirective(ACCStandaloneDirective):
 
         self._sig_set = set()
 
+    def validate_global_constraints(self):
+        '''
+        Perform validation checks that can only be done at code-generation
+        time.
+
+        :raises GenerationError: if this directive is within an OpenACC \
+            compute construct.
+        '''
+        self._validate_not_in_compute_construct()
+        super().validate_global_constraints()
+
     def gen_code(self, parent):
         '''Generate the elements of the f2pygen AST for this Node in the
         Schedule.
@@ -292,6 +318,17 @@ class ACCParallelDirective(ACCRegionDirective):
     def __init__(self, default_present=True, **kwargs):
         super().__init__(**kwargs)
         self.default_present = default_present
+
+    def validate_global_constraints(self):
+        '''
+        Perform validation checks that can only be done at code-generation
+        time.
+
+        :raises GenerationError: if this directive is within another \
+            OpenACC compute construct.
+        '''
+        self._validate_not_in_compute_construct()
+        super().validate_global_constraints()
 
     def gen_code(self, parent):
         '''
@@ -648,6 +685,17 @@ class ACCKernelsDirective(ACCRegionDirective):
         super().__init__(children=children, parent=parent)
         self._default_present = default_present
 
+    def validate_global_constraints(self):
+        '''
+        Perform validation checks that can only be done at code-generation
+        time.
+
+        :raises GenerationError: if this directive is within another \
+            OpenACC compute construct.
+        '''
+        self._validate_not_in_compute_construct()
+        super().validate_global_constraints()
+
     def __eq__(self, other):
         '''
         Checks whether two nodes are equal. Two ACCKernelsDirective nodes are
@@ -728,6 +776,17 @@ class ACCDataDirective(ACCRegionDirective):
     in the PSyIR.
 
     '''
+    def validate_global_constraints(self):
+        '''
+        Perform validation checks that can only be done at code-generation
+        time.
+
+        :raises GenerationError: if this directive is within an OpenACC \
+            compute construct.
+        '''
+        self._validate_not_in_compute_construct()
+        super().validate_global_constraints()
+
     def gen_code(self, _):
         '''
         :raises InternalError: the ACC data directive is currently only \
